@@ -341,6 +341,12 @@ class TermEval:
             a = rv["agg"]
             if a == "adt":
                 names = rv["fields"]
+                # S { f1: x.f1, .., fn: x.fn } rebuilt from all fields of one value of a struct is that value
+                if ops and len(ops) == len(names) and all(isinstance(o, tuple) and o and o[0] == "field" and o[2] == names[i]
+                                                          for i, o in enumerate(ops)):
+                    bases = set(show(o[1]) for o in ops)
+                    if len(bases) == 1 and not any(k.get("kind") == "enum" and n_ == rv["name"] for n_, k in self.facts.adts.items()):
+                        return ops[0][1]
                 return ("agg", "adt", rv["name"], rv["vname"], tuple((names[i] if i < len(names) else str(i), ops[i]) for i in range(len(ops))))
             if a == "tuple":
                 if not ops:
